@@ -184,7 +184,7 @@ fn strat(tier: Tier) -> BoxedStrategy<TextCase> {
         (wordy_pair(invalid), 0u8..3, any::<bool>(), 0u8..8)
             .prop_map(move |((old, new), alg, bytes, opt)| TextCase { old, new, tok: 0, alg, bytes: bytes || invalid, opt })
     };
-    prop_oneof![5 => wordy(false), 3 => wordy(true), 2 => line_case(tier.pick(20, 60), true), 1 => text_case_mix(60).prop_map(|mut c| { c.tok = 0; c })].boxed()
+    prop_oneof![20 => wordy(false), 12 => wordy(true), 8 => line_case(tier.pick(20, 60), true), 4 => text_case_mix(60).prop_map(|mut c| { c.tok = 0; c }), 1 => big_line_case(tier.pick(120, 200))].boxed()
 }
 
 impl Prop for C16 {
